@@ -83,7 +83,7 @@ def post_CORRELOGRAMPSD(X, Y, lag, window, norm, NFFT, correlation_method, resul
     c = _ctx()
     try:
         xa = np.asarray(X)
-        ok = xa.ndim == 1 and len(xa) >= 2 and xa.dtype.kind in 'fc' or (xa.dtype.kind == 'i' and xa.dtype.itemsize == 8)
+        ok = xa.ndim == 1 and len(xa) >= 1 and (xa.dtype.kind in 'fc' or (xa.dtype.kind == 'i' and xa.dtype.itemsize == 8))
     except Exception:
         ok = False
     if not ok:
@@ -166,8 +166,8 @@ def cases(c):
                 out.append({'form': 'function2d', 'window': name, 'N': N + 3, 'NFFT': 2 * N + 7, 'cplx': int(cols % 2),
                             'kind': 'noise', 'cols': cols, 'directed': True})
     for i in range(500 if c.tier == 'quick' else 4000):
-        N = int(rng.integers(2, 41 if i % 4 else 120))
-        out.append({'form': 'correlogram', 'N': N, 'NFFT': int(gen.pick(rng, [2 * N - 1, 2 * N, 2 * N + 1, gen.next_prime(2 * N), 4 * N])),
+        N = int(rng.integers(1, 41 if i % 4 else 120)) if i >= 6 else 1 + i // 3
+        out.append({'form': 'correlogram', 'N': N, 'NFFT': int(gen.pick(rng, [max(1, 2 * N - 1), 2 * N, 2 * N + 1, gen.next_prime(2 * N), 4 * N])),
                     'cplx': int(rng.integers(0, 2)), 'kind': gen.pick(rng, ['noise', 'tones', 'const', 'int', 'dyn']),
                     'method': gen.pick(rng, ['xcorr', 'CORRELATION']), 'window': 'rectangular', 'cols': 0, 'i': i})
     return out
